@@ -7,18 +7,19 @@
 // (e2e.go).
 //
 // case lines (k=v fields; maps id:hexaddr,... or -; sets id,id or -):
-//   <id> cm idx= term= ccid= a= n= w= r= fp=<hex> files=<hex,hex|-> dst=<hex>
-//           self= raddr=<hex> m=<map> dummy=<0|1> type= shard= cksum=<hex>
-//       checkImportSettings, checkMembers (list + each member alone),
-//       getProcessedSnapshotRecord
-//   <id> img body=<hex> recorded=<hex>      isCompleteSnapshotImage on header+body
-//   <id> loc exists=<0|1> entries=<hexname:f|d,...|->   getSnapshotFilepath
-//   <id> ext files=<hexpath:size,..|-> entries=<hexname:f|d:size,..|->   hasAllExternalFiles
-//   <id> ls db=pebble|tan imp=<index>,<term>,<type> | op ; op ...
-//       ops: state <term> <vote> <commit> / ents <first> <count> <term> /
-//            snap <index> <term> / boot <join> <type> / reopen
-//       history on the real ILogDB, reopen, ImportSnapshot, reopen, observe
-//   <id> e2e ...                              see e2e.go
+//
+//	<id> cm idx= term= ccid= a= n= w= r= fp=<hex> files=<hex,hex|-> dst=<hex>
+//	        self= raddr=<hex> m=<map> dummy=<0|1> type= shard= cksum=<hex>
+//	    checkImportSettings, checkMembers (list + each member alone),
+//	    getProcessedSnapshotRecord
+//	<id> img body=<hex> recorded=<hex>      isCompleteSnapshotImage on header+body
+//	<id> loc exists=<0|1> entries=<hexname:f|d,...|->   getSnapshotFilepath
+//	<id> ext files=<hexpath:size,..|-> entries=<hexname:f|d:size,..|->   hasAllExternalFiles
+//	<id> ls db=pebble|tan imp=<index>,<term>,<type> | op ; op ...
+//	    ops: state <term> <vote> <commit> / ents <first> <count> <term> /
+//	         snap <index> <term> / boot <join> <type> / reopen
+//	    history on the real ILogDB, reopen, ImportSnapshot, reopen, observe
+//	<id> e2e ...                              see e2e.go
 package main
 
 import (
